@@ -16,6 +16,15 @@ def main():
     sys.stdout = sys.stderr
     sys.dont_write_bytecode = True
     sys.setrecursionlimit(4000)
+    import threading
+    parent = os.getppid()
+
+    def watchdog():
+        while True:
+            time.sleep(2)
+            if os.getppid() != parent:
+                os._exit(3)
+    threading.Thread(target=watchdog, daemon=True).start()
     mod = importlib.import_module('mpv.props.' + prop)
     booted = False
     for line in sys.stdin:
